@@ -25,6 +25,10 @@ RV_PROGRAMS = [
     ("print-and-fall-off", "addi a7, x0, 1\naddi a0, x0, -7\necall\n"),
     ("jump-outside", "addi x1, x0, 1\njal x2, 64\naddi x3, x0, 3\n"),
     ("fall-off-in-branch-shadow", "addi x1, x0, 1\nbeq x0, x0, 8\naddi x2, x0, 2\n"),
+    ("branch-to-negative-address", "addi x1, x0, 1\nbeq x0, x0, -12\naddi x3, x0, 3\n"),
+    ("jump-beyond-instruction-memory", "lui x5, 4\njalr x2, x5, 0\naddi x3, x0, 3\n"),
+    ("jalr-to-wrapped-address", "addi x1, x0, -4\njalr x0, x1, 0\naddi x3, x0, 3\n"),
+    ("data-only", ".data\nd: .word 0xCAFEBABE, 7\nt: .string \"xyz\"\n"),
     ("runtime-fault", "addi x1, x0, 1\nlw x2, 0(x0)\naddi x3, x0, 3\n"),
     ("infinite-loop", "addi x1, x1, 1\nbeq x0, x0, -4\n"),
     ("parse-fail-line-1", "addi x1, x0\naddi x2, x0, 2\n"),
@@ -54,35 +58,49 @@ CONFIGS = {
 
 
 def programs(cfg):
-    return TOY_PROGRAMS if cfg == "toy" else RV_PROGRAMS
+    return TOY_PROGRAMS if base_cfg(cfg) == "toy" else RV_PROGRAMS
 
 
 def apply(sim, cfg, op):
     """op: ('load', i) | ('step',) | ('run',). Returns (kind, value): ok/parse-error/fault/timeout."""
     try:
-        if op[0] == "load":
+        try:
+            if op[0] == "load":
+                with watchdog(10):
+                    sim.load_program(programs(cfg)[op[1]][1])
+                return "ok", None
+            if op[0] == "step":
+                return "ok", sim.step()
             with watchdog(10):
-                sim.load_program(programs(cfg)[op[1]][1])
+                sim.run()
             return "ok", None
-        if op[0] == "step":
-            return "ok", sim.step()
-        with watchdog(10):
-            sim.run()
-        return "ok", None
+        finally:
+            if cfg.endswith("+inspected"):
+                # the GUI refreshes every table after every operation: inspection between loads / steps must not matter
+                try:
+                    insp.full_snapshot(sim)
+                except Exception:  # noqa  (reported where the snapshot is taken for comparison)
+                    pass
     except ParserException as e:
         return "parse-error", e
     except InstructionExecutionException as e:
         return "fault", e
     except CaseTimeout:
         return "timeout", None
+    except Exception as e:  # noqa - any other exception type escaping load/step/run is a violation (reported by the caller)
+        return "error", e
 
 
 def opname(cfg, op):
     return f"load({programs(cfg)[op[1]][0]})" if op[0] == "load" else op[0] + "()"
 
 
+def base_cfg(cfg):
+    return cfg[:-len("+inspected")] if cfg.endswith("+inspected") else cfg
+
+
 def replay_history(cfg, hist):
-    sim = CONFIGS[cfg]()
+    sim = CONFIGS[base_cfg(cfg)]()
     for op in hist:
         apply(sim, cfg, op)
     return sim
@@ -92,7 +110,7 @@ def explore_config(shard):
     cfg, max_loads = shard
     P = programs(cfg)
     p = Partial()
-    sim0 = CONFIGS[cfg]()
+    sim0 = CONFIGS[base_cfg(cfg)]()
     seen = {digest(insp.full_snapshot(sim0))}
     # per-history bookkeeping: (history, loaded program index or None, steps taken, number of loads, terminal?)
     frontier = [((), None, 0, 0)]
@@ -100,8 +118,8 @@ def explore_config(shard):
 
     def fresh_snapshot(i):
         if i not in fresh_load:
-            s = CONFIGS[cfg]()
-            k, _v = apply(s, cfg, ("load", i))
+            s = CONFIGS[base_cfg(cfg)]()
+            k, _v = apply(s, base_cfg(cfg), ("load", i))
             fresh_load[i] = (k, digest(insp.full_snapshot(s)))
         return fresh_load[i]
 
@@ -114,7 +132,10 @@ def explore_config(shard):
         for hist, prog, steps, nloads in frontier:
             base = replay_history(cfg, hist)
             started = base.has_started
-            was_done = base.is_done()
+            try:
+                was_done = base.is_done()
+            except Exception:  # noqa (already reported on the transition that led here)
+                continue
             before = digest(insp.full_snapshot(base)) if was_done else None
             ops = []
             if not started and nloads < max_loads:
@@ -133,7 +154,15 @@ def explore_config(shard):
                 if kind == "timeout":
                     viol("termination", h2, f"{opname(cfg, op)} did not return within 10 s")
                     continue
-                snap = insp.full_snapshot(sim)
+                if kind == "error":
+                    viol("unexpected-exception", h2, f"{opname(cfg, op)} raised {type(val).__name__}: {str(val)[:100]}")
+                    continue
+                try:
+                    snap = insp.full_snapshot(sim)
+                    sim.is_done()
+                except Exception as e:  # noqa
+                    viol("unexpected-exception", h2, f"inspecting the simulation after {opname(cfg, op)} raised {type(e).__name__}: {str(e)[:100]}")
+                    continue
                 dg = digest(snap)
                 terminal = False
                 if op[0] == "load":
@@ -173,9 +202,12 @@ def explore_config(shard):
                             ref = replay_history(cfg, hist)
                             n = 0
                             rk = "ok"
-                            while not ref.is_done() and n < 400 and rk == "ok":
-                                rk, _v = apply(ref, cfg, ("step",))
-                                n += 1
+                            try:
+                                while not ref.is_done() and n < 400 and rk == "ok":
+                                    rk, _v = apply(ref, cfg, ("step",))
+                                    n += 1
+                            except Exception:  # noqa
+                                rk = "error"
                             if not sim.is_done():
                                 viol("run-not-done", h2, "run() returned but the simulation is not done")
                             elif rk == "ok" and digest(insp.full_snapshot(ref)) != dg:
@@ -189,7 +221,7 @@ def explore_config(shard):
         if p.viol and len(seen) > 3000:
             break
     p.states = len(seen)
-    p.sample(dict(kind="lifecycle", cfg=cfg, hist=[["load", 11 if cfg != "toy" else 8], ["load", 3], ["step"], ["run"], ["step"]]))
+    p.sample(dict(kind="lifecycle", cfg=cfg, hist=[["load", len(P) - 1], ["load", 3], ["step"], ["run"], ["step"]]))
     return p
 
 
@@ -210,13 +242,16 @@ def run(ctx):
     ctx.rule = ("BFS over histories of {load(P_i), step(), run()} on real single-cycle, five-stage (with/without hazard detection, with/without caches) and "
                 "TOY simulations; load is offered only while has_started is false, load sequences up to depth 3 (4); program corpus: empty, comment-only, "
                 "one instruction, straight line with data, exit ecall followed by instructions, print then fall off, jump outside, fall off inside a branch "
-                "shadow, run-time fault, infinite loop (horizon 40, run excluded), parse failure at line 1, parse failure after the data segment was written. "
+                "shadow, jumps that leave the instruction memory's address range (negative, >= 2^14, wrapped), data-only program, run-time fault, infinite loop (horizon 40, "
+                "run excluded), parse failure at line 1, parse failure after the data segment was written; every configuration is explored twice: plainly, and with "
+                "every inspection function called after every operation (the GUI's behaviour). "
                 "States deduplicated on the complete canonical snapshot + every inspection result; the search runs to closure. Invariants per transition: "
                 "done => further step/run change nothing; step() returns not is_done(); run() == step() until done; empty program done immediately; a load "
                 "after earlier successful/failed loads equals the same load on a fresh simulation. Non-trivial = reload after an earlier load, call after done.")
     ctx.assumptions += ["behaviour after a run-time fault is not explored further (not part of the claim)", "wall-clock fields of the metrics are masked"]
     t0 = time.time()
     max_loads = 3 if ctx.quick else 4
-    part = pmap(explore_config, [(cfg, max_loads) for cfg in CONFIGS])
-    ctx.space("lifecycle-bfs", part, t0, configurations=list(CONFIGS), max_loads=max_loads, closed=True)
+    cfgs = list(CONFIGS) + [c + "+inspected" for c in CONFIGS]
+    part = pmap(explore_config, [(cfg, max_loads) for cfg in cfgs])
+    ctx.space("lifecycle-bfs", part, t0, configurations=cfgs, max_loads=max_loads, closed=True)
     ctx.require("reload", "failed-load", "runtime-fault", "call-after-done", "run")
